@@ -41,7 +41,7 @@ func init() {
 			{Name: "authority + endorse pipeline (signing of generated tables)", Kind: "real"},
 			{Name: "network, file IO", Kind: "stub"},
 		},
-		Budget: core.StdBudget(2500, 100*time.Second, 300000, 25*time.Minute),
+		Budget: core.StdBudget(2500, 100*time.Second, 300000, 9*time.Minute),
 		Body:   runC02,
 	})
 }
